@@ -43,10 +43,6 @@ def run(ctx) -> None:
     check_map(ctx)
     check_snapshot(ctx)
     check_net(ctx)
-    from . import solform
-
-    ctx.rule("C04.labels", "finite evaluation: get_solution puts every value under the identifier of its own reaction / metabolite, whatever the order of the request", floor=1)
-    ctx.guard(solform.check_get_solution, ctx, "C04.labels")
     # the optimum that is reported is the optimum of the problem the solver holds: that this is the model's
     # flux-balance problem after every edit is C01 - its whole rule set is a necessary condition here (shared)
     c01.run(ctx)
@@ -380,14 +376,20 @@ def check_snapshot(ctx) -> None:
     calls = [n for n in walk_local(fn.node) if isinstance(n, ast.Call) and norm(n.func) == "Solution"]
     if not calls:
         raise AnalysisError("get_solution: Solution(...) construction not found")
-    for c in calls:
-        for kw in c.keywords:
-            v = kw.value
-            verdict = _arg_is_snapshot(ctx, fn, v)
-            if verdict is True:
-                ctx.ok("C04.snapshot", fn, f"{kw.arg}={norm(v, 60)}", "scalar, or built from storage allocated in this call")
-            else:
-                ctx.bad("C04.snapshot", fn, c, f"Solution.{kw.arg} is `{norm(v, 60)}`: {verdict}; later optimisations or edits would change the returned Solution")
+    # whether the Solution shares storage with the solver is decided by the evaluated clause C04.labels (the solver's
+    # tables are changed after the call and the Solution must stay as it was); the reading of the provenance of each
+    # argument only explains
+    def _provenance(c_):
+        for c in calls:
+            for kw in c.keywords:
+                v = kw.value
+                verdict = _arg_is_snapshot(c_, fn, v)
+                if verdict is True:
+                    c_.ok("C04.snapshot", fn, f"{kw.arg}={norm(v, 60)}", "scalar, or built from storage allocated in this call")
+                else:
+                    c_.bad("C04.snapshot", fn, c, f"Solution.{kw.arg} is `{norm(v, 60)}`: {verdict}; later optimisations or edits would change the returned Solution")
+
+    ctx.explain(not _labels_hold(ctx), _provenance, ctx)
     # status checked before anything is read
     first = fn.node.body[0] if not isinstance(fn.node.body[0], ast.Expr) or not isinstance(fn.node.body[0].value, ast.Constant) else fn.node.body[1]
     if isinstance(first, ast.Expr) and isinstance(first.value, ast.Call) and norm(first.value.func).endswith("check_solver_status"):
@@ -450,8 +452,47 @@ def _local_storage(ctx, fn: FuncInfo, v: ast.AST):
     return "not a local array/list"
 
 
+def _labels_hold(ctx) -> bool:
+    """Verdict of the evaluated clause on get_solution (computed quietly, once)."""
+    if not hasattr(ctx, "_labels_hold"):
+        from . import solform
+
+        class _Probe:
+            prog = ctx.prog
+
+            def __init__(self):
+                self.failed = False
+
+            def bad(self, *a, **k):
+                self.failed = True
+
+            def ok(self, *a, **k):
+                pass
+
+        pr = _Probe()
+        try:
+            solform.check_get_solution(pr, "C04.labels")
+            ctx._labels_hold = not pr.failed
+        except Exception:  # noqa: BLE001 - not evaluable: the structural reading stays armed
+            ctx._labels_hold = False
+    return ctx._labels_hold
+
+
 # ------------------------------------------------------------------------------------------- net
 def check_net(ctx) -> None:
+    """Net values are forward - reverse. For get_solution this is decided by the evaluated clause C04.labels (distinct
+    forward and reverse values in the solver stand-in); the reading of its array stores only explains. The per-object
+    accessors are read here."""
+    n0, d0 = len(ctx.findings), len(ctx.deferred)
+    from . import solform
+
+    ctx.rule("C04.labels", "finite evaluation: get_solution puts every value under the identifier of its own reaction / metabolite, whatever the order of the request", floor=1)
+    ctx.guard(solform.check_get_solution, ctx, "C04.labels")
+    ctx.explain(len(ctx.findings) > n0 or len(ctx.deferred) > d0, _net_reading_get_solution, ctx)
+    _net_accessors(ctx)
+
+
+def _net_reading_get_solution(ctx) -> None:
     prog = ctx.prog
     fn = prog.func("cobra.core.solution", "get_solution")
     arrays = {"fluxes": "primal", "reduced": "dual"}
@@ -483,6 +524,10 @@ def check_net(ctx) -> None:
                 ctx.bad("C04.net", fn, st, "the reverse part is only subtracted under a condition")
     if n == 0:
         raise AnalysisError("get_solution: stores into the result arrays not found")
+
+
+def _net_accessors(ctx) -> None:
+    prog = ctx.prog
     for name in ("Reaction.flux", "Reaction.reduced_cost"):
         f = prog.func("cobra.core.reaction", name)
         rets = [r for r in walk_local(f.node) if isinstance(r, ast.Return) and r.value is not None]
